@@ -17,7 +17,7 @@ import (
 //   reachable   GetDeviceKeys other error (400 Other); KEK / AS-label / AS-KEK lookup error (500 Other);
 //               KEK of a length aes.NewCipher refuses (AppSKey envelope; first NS envelope);
 //               JoinNonce > 2^24-1 (setJoinNonce) and negative (uint32 wrap -> getSKey marshal error);
-//               RxDelay > 15, CFList with a seventh mask (SetDownlinkJoinMIC marshal error); CFList of a
+//               RxDelay > 15 (SetDownlinkJoinMIC marshal error; a channel-mask CFList can no longer fail there since /repo e2c2b92); CFList of a
 //               wrong length; SenderID / ReceiverID that are not a NetID / JoinEUI
 //   unreachable the later getSKey errors after the first succeeded (same nonce), getJSKey / cipher /
 //               block-size errors, EncryptJoinAcceptPayload / MarshalBinary after the MIC was computed over
@@ -60,12 +60,7 @@ func (g *G) errorPaths(thorough bool) {
 				{"joinnonce-2^24", func(a *act, t *table, q *req) { t.devices[0].joinNonce = 1 << 24 }},
 				{"joinnonce-negative", func(a *act, t *table, q *req) { t.devices[0].joinNonce = -1 - r.Intn(1000) }},
 				{"rxdelay-16", func(a *act, t *table, q *req) { q.rxDelay = 16 }},
-				{"cflist-seventh-mask", func(a *act, t *table, q *req) {
-					b := r.Bytes(16)
-					b[12] |= 1
-					b[15] = 1
-					q.cfl = sp(hex.EncodeToString(b))
-				}},
+				{"rxdelay-255", func(a *act, t *table, q *req) { q.rxDelay = 255 }},
 				{"cflist-15-bytes", func(a *act, t *table, q *req) { q.cfl = sp(hex.EncodeToString(r.Bytes(15))) }},
 				{"sender-not-a-netid", func(a *act, t *table, q *req) { q.sender = "01020g" }},
 				{"receiver-not-a-joineui", func(a *act, t *table, q *req) { q.receiver = "0102030405060x08" }},
